@@ -595,7 +595,7 @@ Proof.
   { rewrite KP_single. subst st. apply (Kspec_here Rd); auto. }
   rewrite flat_map_app.
   remember (negb (fund =? 0) && insufficient (balance_of st (c_this c)) fund) as cB eqn:EcB.
-  remember (send_cond op st (c_this c) fund) as cA eqn:EcA.
+  remember (main_cond op st (c_this c) to fund (c_depth c)) as cA eqn:EcA.
   match goal with
   | |- context [mkCtx ?a ?b ?d ?e ?f ?g ?h] => remember (mkCtx a b d e f g h) as msg eqn:Emsg
   end.
@@ -607,8 +607,11 @@ Proof.
     destruct (ext_facts H H1 hs Rd k kp W R K L1 A1) as (W1 & S1 & R1 & K1).
     rewrite <- Est in S1.
     rewrite <- (holds_cons false cA tr).
-    destruct (in_code st to).
-    + destruct (snapshot_call H1 hs) as [H1a snap] eqn:Es.
+    destruct (in_code st to) eqn:Ein.
+    + assert (Esc : send_cond op st (c_this c) fund = cA)
+        by (rewrite EcA; unfold main_cond; rewrite Ein; reflexivity).
+      rewrite Esc.
+      destruct (snapshot_call H1 hs) as [H1a snap] eqn:Es.
       pose proof (snapshot_call_copied _ _ _ _ W1 Es) as C.
       destruct (explore feas ((false, cA) :: tr)) eqn:Ee.
       * unfold call_backup_before_transfer. cbv iota.
@@ -661,7 +664,14 @@ Proof.
         -- exact Main.
         -- eapply Post_false_irrel. exact Main.
       * apply Post_skip_ext; [apply explore_false in Ee; exact Ee | rewrite (cp_len _ _ _ _ C); lia | apply (cp_old _ _ _ _ C)].
-    + destruct (explore feas ((false, cA) :: tr)) eqn:Ee.
+    + destruct (unknown_call_ok (c_depth c)) eqn:Eu.
+      2:{ (* the call of an account without code at the depth limit: status word 0, nothing sent *)
+          assert (EA : cA = true) by (rewrite EcA; unfold main_cond; rewrite Ein, Eu; reflexivity).
+          rewrite <- S1. apply Hcont; assumption. }
+      assert (Esc : send_cond op st (c_this c) fund = cA)
+        by (rewrite EcA; unfold main_cond; rewrite Ein, Eu; reflexivity).
+      rewrite Esc.
+      destruct (explore feas ((false, cA) :: tr)) eqn:Ee.
       * remember (send_force op st (c_this c) to fund) as st1 eqn:Est1.
         assert (S1a : habs H1 (h_values hs st1) = st1).
         { subst st1 st. rewrite <- S1 at 1. rewrite habs_send. rewrite S1. reflexivity. }
@@ -692,7 +702,9 @@ Proof.
               (flat_map (KP kp lg) (contp (habs H2 hsF) (m_after_call ob 0 (Some (false, true, [])) rsz []) (Some (false, true, [])))))
       by (apply Hcont; assumption).
     destruct cB; [exact Main | eapply Post_false_irrel; exact Main].
-  - intros E. rewrite E. destruct (in_code st to); reflexivity.
+  - intros E. rewrite EcA in E. unfold main_cond in E.
+    destruct (in_code st to); cbn [orb] in E; [rewrite E; reflexivity|].
+    destruct (unknown_call_ok (c_depth c)); [rewrite E; reflexivity | discriminate E].
   - intros E. rewrite E. reflexivity.
 Qed.
 (* STAGE5 *)
@@ -1018,11 +1030,11 @@ Qed.
 
 Theorem explored_refines : forall feas s c w ctr r ctr' lg,
   supported s = true -> c_depth c <= MAX_DEPTH ->
-  sframe s c w ctr = (r, ctr', lg) -> clean lg = true ->
+  sframe s c w ctr = (r, ctr', lg) ->
   explored feas s c w ctr <> [] /\
   Forall (fun m : mres => R m (r, ctr', lg)) (explored feas s c w ctr).
 Proof.
-  intros feas s c w ctr r ctr' lg Hsup Hd Hs Hcl. rewrite explored_is_mframe.
+  intros feas s c w ctr r ctr' lg Hsup Hd Hs. rewrite explored_is_mframe.
   apply mframe_refines_supported; assumption.
 Qed.
 
